@@ -188,6 +188,8 @@ pub enum S {
     Bool,
     Unit,
     Compact(u8),
+    /// compact of width bytes whose value must not exceed max (CompactAs with a fallible conversion)
+    CompactLe(u8, u64),
     CompactUnit,
     NonZeroU(u8),
     NonZeroI(u8),
@@ -268,7 +270,7 @@ impl S {
             S::UInt(w) | S::Int(w) | S::NonZeroU(w) | S::NonZeroI(w) => *w as usize,
             S::F32 => 4,
             S::F64 => 8,
-            S::Bool | S::OptBool | S::Opt(_) | S::Compact(_) => 1,
+            S::Bool | S::OptBool | S::Opt(_) | S::Compact(_) | S::CompactLe(..) => 1,
             S::Unit | S::CompactUnit | S::Skipped(_) => 0,
             S::Res(a, b) => 1 + a.min_size_d(d).min(b.min_size_d(d)),
             S::Seq(..) | S::Map(..) | S::Set(_) | S::Str | S::Bytes | S::Bits(..) => 1,
@@ -407,6 +409,11 @@ impl Enc {
             },
             (S::Unit, V::Unit) | (S::CompactUnit, V::Unit) => {},
             (S::Compact(w), V::U(x)) => {
+                let off = self.out.len();
+                compact_bytes(*x, &mut self.out);
+                self.note(off, AK::Compact, *w as u64, 0);
+            },
+            (S::CompactLe(w, _), V::U(x)) => {
                 let off = self.out.len();
                 compact_bytes(*x, &mut self.out);
                 self.note(off, AK::Compact, *w as u64, 0);
@@ -597,11 +604,13 @@ pub struct Dec<'a> {
     depth: usize,
     /// Keep the wire structure: no sorting, no duplicate collapsing in maps / sets / heaps.
     raw: bool,
+    /// Largest claimed count of zero-byte elements met so far (also when decoding fails later).
+    pub max_empty_count: u64,
 }
 
 impl<'a> Dec<'a> {
     pub fn new(inp: &'a [u8]) -> Dec<'a> {
-        Dec { inp, pos: 0, depth: 0, raw: false }
+        Dec { inp, pos: 0, depth: 0, raw: false, max_empty_count: 0 }
     }
     /// Canonical Compact<u32> (count prefix).
     pub fn compact_u32(&mut self) -> Result<u64, Rej> {
@@ -694,6 +703,13 @@ impl<'a> Dec<'a> {
             },
             S::Unit | S::CompactUnit => Ok(V::Unit),
             S::Compact(w) => Ok(V::U(self.compact(*w as usize)?)),
+            S::CompactLe(w, max) => {
+                let x = self.compact(*w as usize)?;
+                if x > *max as u128 {
+                    return Err(Rej::Reject);
+                }
+                Ok(V::U(x))
+            },
             S::NonZeroU(w) => {
                 let x = self.le(*w as usize)?;
                 if x == 0 {
@@ -736,6 +752,7 @@ impl<'a> Dec<'a> {
                     return Ok(V::Blob(b));
                 }
                 if e.is_empty() {
+                    self.max_empty_count = self.max_empty_count.max(n);
                     return Ok(V::Rep(n, Box::new(e.empty_value())));
                 }
                 let mut items = Vec::new();
@@ -750,6 +767,7 @@ impl<'a> Dec<'a> {
             S::Set(e) => {
                 let n = self.compact(4)? as u64;
                 if e.is_empty() {
+                    self.max_empty_count = self.max_empty_count.max(n);
                     if self.raw {
                         return Ok(V::Rep(n, Box::new(e.empty_value())));
                     }
@@ -768,6 +786,7 @@ impl<'a> Dec<'a> {
             S::Map(k, val) => {
                 let n = self.compact(4)? as u64;
                 if k.is_empty() && val.is_empty() {
+                    self.max_empty_count = self.max_empty_count.max(n);
                     if self.raw {
                         return Ok(V::Rep(n, Box::new(V::Tuple(vec![k.empty_value(), val.empty_value()]))));
                     }
@@ -881,13 +900,22 @@ impl<'a> Dec<'a> {
 /// Like `ref_decode` but keeps the wire structure (all map pairs / set elements in wire order,
 /// duplicates included): what the decoder has to walk through, as opposed to what it returns.
 pub fn ref_decode_raw(s: &S, bytes: &[u8]) -> Result<(V, usize), Rej> {
-    let mut d = Dec { inp: bytes, pos: 0, depth: 0, raw: true };
+    let mut d = Dec { inp: bytes, pos: 0, depth: 0, raw: true, max_empty_count: 0 };
     let v = d.dec(s)?;
     Ok((v, d.pos))
 }
 
+/// Largest claimed count of zero-byte elements the decoder meets while walking `bytes`, whether
+/// or not the walk ends in a rejection (the real decoder iterates over such a count before it
+/// can notice that something behind it is missing).
+pub fn max_empty_count(s: &S, bytes: &[u8]) -> u64 {
+    let mut d = Dec { inp: bytes, pos: 0, depth: 0, raw: true, max_empty_count: 0 };
+    let _ = d.dec(s);
+    d.max_empty_count
+}
+
 pub fn ref_decode(s: &S, bytes: &[u8]) -> Result<(V, usize), Rej> {
-    let mut d = Dec { inp: bytes, pos: 0, depth: 0, raw: false };
+    let mut d = Dec { inp: bytes, pos: 0, depth: 0, raw: false, max_empty_count: 0 };
     let v = d.dec(s)?;
     Ok((v, d.pos))
 }
@@ -1099,6 +1127,11 @@ impl<'r> Gen<'r> {
             S::Bool => V::Bool(self.rng.chance(1, 2)),
             S::Unit | S::CompactUnit => V::Unit,
             S::Compact(w) => V::U(interesting_uint(self.rng, *w as usize)),
+            S::CompactLe(_, max) => V::U(match self.rng.below(4) {
+                0 => 0,
+                1 => *max as u128,
+                _ => self.rng.below(*max + 1) as u128,
+            }),
             S::NonZeroU(w) => {
                 let x = interesting_uint(self.rng, *w as usize);
                 V::U(if x == 0 { 1 } else { x })
@@ -1298,7 +1331,7 @@ impl<'r> Gen<'r> {
 pub fn shrink_value(s: &S, v: &V) -> Vec<V> {
     let mut out = Vec::new();
     match (s, v) {
-        (S::UInt(_), V::U(x)) | (S::Compact(_), V::U(x)) => {
+        (S::UInt(_), V::U(x)) | (S::Compact(_), V::U(x)) | (S::CompactLe(..), V::U(x)) => {
             if *x != 0 {
                 out.push(V::U(0));
                 out.push(V::U(x >> 1));
